@@ -72,6 +72,14 @@ def m_v3_grpc_method(r):
     sub1(r + "/api/v3/api_grpc.pb.go", 'MethodName: "Query"', 'MethodName: "Quer"')
 
 
+def m_v3_struct_tag(r):
+    sub1(r + "/api/v3/api.pb.go", 'protobuf:"bytes,2,opt,name=name,proto3"', 'protobuf:"bytes,3,opt,name=name,proto3"')
+
+
+def m_alpha_go_enum_const(r):
+    sub1(r + "/api/v3alpha/api.pb.go", "System_NUGET              System = 8", "System_NUGET              System = 9")
+
+
 def m_alpha_proto_drop_field(r):
     sub1(r + "/api/v3alpha/api.proto", "  bool is_deprecated = 12;", "")
 
@@ -102,6 +110,8 @@ MUTANTS = [
     ("alpha_both_field_number", m_alpha_both_field_number, 1),
     ("v3_grpc_method", m_v3_grpc_method, 1),
     ("alpha_proto_drop_field", m_alpha_proto_drop_field, 1),
+    ("v3_struct_tag", m_v3_struct_tag, 1),
+    ("alpha_go_enum_const", m_alpha_go_enum_const, 1),
     ("harmless_comments", h_comments, 0),
     ("harmless_go_comment", h_go_comment, 0),
 ]
